@@ -33,6 +33,8 @@ struct Oracle {
 	delivered: Vec<String>,
 	/// completions seen before the request reached the wire (gate shut): (op, id of the completing response)
 	deferred: Vec<(usize, Value)>,
+	/// every request id on the wire that has not been answered yet (calls, subscribe / unsubscribe calls, batch entries)
+	inflight: InFlight,
 }
 
 fn canon(s: &str) -> String {
@@ -160,13 +162,26 @@ fn run_one(out: &mut Out, lines: &[String]) {
 				"notify" => {}
 				_ => {}
 			}
+			let delivered = if w[1] == "deliver" || w[1] == "deliverx" { String::from_utf8(unhex(w[2])).ok() } else { None };
+			// two requests in flight must never bear the same id — otherwise "the response bearing its id" means nothing
+			if let Some(d) = &delivered {
+				orc.inflight.on_deliver(d);
+			}
+			for wt in &obs.wires {
+				if let Err(e) = orc.inflight.on_wire(wt) {
+					out.count("oracle.shared-wire-id");
+					verdict = Err(e);
+				}
+			}
+			if obs.fatal.is_some() {
+				orc.inflight.clear();
+			}
 			for wt in &obs.wires {
 				// notifications carry no id and are skipped by see_wire
 				if let Err(e) = orc.see_wire(wt) {
 					verdict = Err(e);
 				}
 			}
-			let delivered = if w[1] == "deliver" || w[1] == "deliverx" { String::from_utf8(unhex(w[2])).ok() } else { None };
 			if w[1] == "deliverx" {
 				// not a legal message of any kind: it must complete nothing and the client must not carry on as if
 				// nothing had happened
@@ -390,14 +405,14 @@ fn gen_case(rng: &mut Rng, out: &mut Out, caseno: u64, perm: Option<Vec<usize>>)
 				let n = rng.range(1, 3);
 				lines.push(format!("cl batch {n}"));
 				open.push(Open::Batch { start: next_id, n });
-				next_id += 1;
+				next_id += n;
 				next_op += 1;
 				if rng.chance(1, 4) {
 					// the second time: an identical batch right behind the first
 					out.count("second.identical-batch");
 					lines.push(format!("cl batch {n}"));
 					open.push(Open::Batch { start: next_id, n });
-					next_id += 1;
+					next_id += n;
 					next_op += 1;
 				}
 			}
@@ -417,7 +432,7 @@ fn gen_case(rng: &mut Rng, out: &mut Out, caseno: u64, perm: Option<Vec<usize>>)
 				let n = rng.range(1, 3);
 				lines.push(format!("cl tbatch {} {n}", rng.pick(&TYPED_KINDS)));
 				open.push(Open::Batch { start: next_id, n });
-				next_id += 1;
+				next_id += n;
 				next_op += 1;
 			}
 			_ => {
